@@ -15,13 +15,30 @@ on the unit circle:
 Also proved: over ℝ (with `arctan2 y x := arg (x + iy)`), `trs2kepler (kepler2trs k) = k` for every
 bound inclined orbit with the angles in their principal ranges (`trs2kepler_kepler2trs`).
 
+The other direction (`Proofs/KeplerInverse.lean`): `kepler2trs (trs2kepler s) = s` over ℝ for every bound, inclined,
+non-circular state `s` (`kepler2trs_trs2kepler`; hypotheses as explicit conditions on the state, `r·v ≠ 0` suffices for
+non-circularity: `kepler2trs_trs2kepler_of_dot_ne`).
+
+Ranges (`Proofs/KeplerRanges.lean`): for *every* state, the angles `trs2kepler` returns are in the code's principal
+ranges (`0 ≤ i ≤ π`, `Ω, E ∈ (−π, π]`, `ω ∈ [0, 2π)` incl. the `omega < 0` wrap), `e ≥ 0`; `a > 0` for negative energy,
+`e < 1` when moreover `h ≠ 0`; the true anomaly is in `(−π, π]` and has the sign of `sin E` (ascending / descending arc).
+
+Objects (`Model/PosCache.lean`, `Proofs/PosCacheProofs.lean`): in every history of `PosVel(...)` constructions,
+conversions, row views and in-place writes, what `to_system` hands out holds the conversion of the *current* contents
+of the object asked (`cache_coherent`), and an array handed out earlier is not changed when the array it was
+converted from is written to (`kept_conversion_unchanged`).
+
 Not proved (decided by the correspondence/oracle of harness/c07.py over the stated element ranges):
 that libm's `arctan2` agrees with the real `arg` to rounding and the resulting `< 1e-8` bound of
 the IEEE evaluation.
 -/
 import Midgard.Proofs.GeoReal
 import Midgard.Proofs.SourceTie
+import Midgard.Proofs.KeplerRanges
+import Midgard.Proofs.KeplerInverse
+import Midgard.Proofs.PosCacheProofs
 import Midgard.Model.Kepler
+import Midgard.Model.PosCache
 
 namespace Midgard.Props.C07
 open Midgard.Geo
@@ -391,6 +408,119 @@ theorem source_anomalies (e E : ℝ) :
 
 end Source
 
+
+/-! ## state → elements → state -/
+section Inverse
+
+/-- **`kepler2trs ∘ trs2kepler = id`** over ℝ: converting the elements back reproduces position and velocity, for
+every state with `r ≠ 0` that is bound (`v² < 2 GM / |r|`), inclined (`h = r × v` not along the z axis; this also
+says `h ≠ 0`) and non-circular (the eccentricity `trs2kepler` returns is positive; see `noncircular_iff` and
+`kepler2trs_trs2kepler_of_dot_ne` for conditions on the state alone). -/
+theorem kepler2trs_trs2kepler (GM : ℝ) (s : V6 ℝ) (hGM : 0 < GM) (hr : s.p.norm2 ≠ 0)
+    (hbound : s.v.norm2 < 2 * GM / s.p.norm)
+    (hincl : (V3.cross s.p s.v).x ^ 2 + (V3.cross s.p s.v).y ^ 2 ≠ 0)
+    (hecc : 0 < (trs2kepler GM s).e) :
+    kepler2trs GM (trs2kepler GM s) = s :=
+  KepInv.kepler2trs_trs2kepler GM s ⟨hGM, hr, hbound, hincl, hecc⟩
+
+/-- non-circular, as a condition on the state: `|h|² < GM a` -/
+theorem noncircular_iff (GM : ℝ) (s : V6 ℝ) (hGM : 0 < GM) (ha : 0 < (trs2kepler GM s).a) :
+    0 < (trs2kepler GM s).e ↔ (V3.cross s.p s.v).norm2 < GM * (trs2kepler GM s).a :=
+  KepInv.e_pos_iff GM s hGM ha
+
+/-- the same with `r · v ≠ 0` (the state is not at perigee or apogee — in particular the orbit is not circular) in
+place of the condition on the returned eccentricity -/
+theorem kepler2trs_trs2kepler_of_dot_ne (GM : ℝ) (s : V6 ℝ) (hGM : 0 < GM) (hr : s.p.norm2 ≠ 0)
+    (hbound : s.v.norm2 < 2 * GM / s.p.norm)
+    (hincl : (V3.cross s.p s.v).x ^ 2 + (V3.cross s.p s.v).y ^ 2 ≠ 0) (hdot : V3.dot s.p s.v ≠ 0) :
+    kepler2trs GM (trs2kepler GM s) = s :=
+  KepInv.kepler2trs_trs2kepler GM s (KepInv.Regular.of_dot_ne GM s hGM hr hbound hincl hdot)
+
+/-- the hypotheses hold for `GM = 1`, `r = (1, 0, 0)`, `v = (0, 1/2, 1/2)` (`a = 2/3`, `e = 1/2`, `i = π/4`) -/
+example : kepler2trs (1 : ℝ) (trs2kepler 1 ⟨⟨1, 0, 0⟩, ⟨0, 1 / 2, 1 / 2⟩⟩) = ⟨⟨1, 0, 0⟩, ⟨0, 1 / 2, 1 / 2⟩⟩ :=
+  have h := KepInv.regular_example
+  kepler2trs_trs2kepler 1 _ h.hGM h.hr h.bound h.inclined h.noncircular
+
+end Inverse
+
+/-! ## principal ranges of the elements `trs2kepler` returns -/
+section Ranges
+
+/-- for every state (no hypothesis): `0 ≤ i ≤ π`, `Ω ∈ (−π, π]`, `ω ∈ [0, 2π)` (after the code's `omega < 0` wrap),
+`E ∈ (−π, π]`, `e ≥ 0` -/
+theorem principal_ranges (GM : ℝ) (w : V6 ℝ) :
+    0 ≤ (trs2kepler GM w).i ∧ (trs2kepler GM w).i ≤ Real.pi ∧
+    -Real.pi < (trs2kepler GM w).Omega ∧ (trs2kepler GM w).Omega ≤ Real.pi ∧
+    0 ≤ (trs2kepler GM w).omega ∧ (trs2kepler GM w).omega < 2 * Real.pi ∧
+    -Real.pi < (trs2kepler GM w).E ∧ (trs2kepler GM w).E ≤ Real.pi ∧
+    0 ≤ (trs2kepler GM w).e := trs2kepler_ranges GM w
+
+/-- a bound orbit (negative energy: `v² < 2 GM / r`) has a positive semi-major axis and, when the angular
+momentum does not vanish, an eccentricity below 1 -/
+theorem bound_orbit (GM : ℝ) (w : V6 ℝ) (hGM : 0 < GM) (hr : 0 < w.p.norm)
+    (hbound : w.v.norm * w.v.norm < 2 * GM / w.p.norm) (hh : (V3.cross w.p w.v).norm ≠ 0) :
+    0 < (trs2kepler GM w).a ∧ (trs2kepler GM w).e < 1 :=
+  ⟨trs2kepler_bound GM w hGM hr hbound, trs2kepler_e_lt_one GM w hGM (trs2kepler_bound GM w hGM hr hbound) hh⟩
+
+/-- the hypotheses of `bound_orbit` hold for `GM = 1`, `r = (1, 0, 0)`, `v = (0, 1, 0)` -/
+example : 0 < (trs2kepler (1 : ℝ) ⟨⟨1, 0, 0⟩, ⟨0, 1, 0⟩⟩).a ∧ (trs2kepler (1 : ℝ) ⟨⟨1, 0, 0⟩, ⟨0, 1, 0⟩⟩).e < 1 := by
+  obtain ⟨h1, h2, h3⟩ := circular_hyps
+  simp only at h1 h2 h3
+  exact bound_orbit 1 _ one_pos (by rw [h1]; exact one_pos) (by rw [h1, h2]; norm_num) (by rw [h3]; exact one_ne_zero)
+
+/-- `KeplerPosVel.f` is in `(−π, π]`, positive on the ascending half of the orbit (`sin E > 0`) and negative on the
+descending half (`sin E < 0`) -/
+theorem true_anomaly_range_and_sign (e E : ℝ) (he0 : 0 ≤ e) (he1 : e < 1) :
+    trueAnomaly e E ∈ Set.Ioc (-Real.pi) Real.pi ∧ (0 < Real.sin E → 0 < trueAnomaly e E) ∧
+      (Real.sin E < 0 → trueAnomaly e E < 0) :=
+  ⟨trueAnomaly_mem_Ioc e E, fun h => trueAnomaly_pos he0 he1 h, fun h => trueAnomaly_neg he0 he1 h⟩
+
+end Ranges
+
+/-! ## the conversion cache of `PosVel` objects in every history -/
+section Cache
+open Midgard.Geo.PosCache
+variable {A : Type} [Arr A]
+
+/-- **cache coherence**: after every history `ops` of constructions, conversions, views, row copies and in-place
+writes (started from the empty store), `objs[o].to_system(s)` hands out an object that holds the conversion of
+the *current* contents of `objs[o]` (the object itself for its own system), and asking changes the contents
+of no object. -/
+theorem cache_coherent (a : A) (ops : List (Op A)) (o : Nat) (s : Sys) (ho : o < (run (empty a) ops).n) :
+    contents (toSystem (run (empty a) ops) o s).1 (toSystem (run (empty a) ops) o s).2 =
+      (if s = ((run (empty a) ops).obj o).sys then contents (run (empty a) ops) o
+       else Arr.conv s (contents (run (empty a) ops) o)) ∧
+    ∀ j, j < (run (empty a) ops).n →
+      contents (toSystem (run (empty a) ops) o s).1 j = contents (run (empty a) ops) j :=
+  toSystem_spec (wf_run (wf_empty a) ops) ho s
+
+/-- an array handed out as a conversion keeps its values when the array it was converted from is written to
+(`k = orbit.kepler; orbit[key] = v`: `k` is unchanged) — it lives on a memory block of its own -/
+theorem kept_conversion_unchanged (a : A) (ops : List (Op A)) (o c : Nat) (key : String) (v : A)
+    (ho : o < (run (empty a) ops).n) (hc : ((run (empty a) ops).obj o).cache = some c) :
+    contents (setItem (run (empty a) ops) o key v) c = contents (run (empty a) ops) c :=
+  setItem_contents_other _ o key v ((wf_run (wf_empty a) ops).cache_ok o ho c hc).2.2.2.2
+
+/-- a write changes no object that lives on another memory block; a view holds the rows cut out of its parent -/
+theorem write_is_local (st : Store A) (o j : Nat) (key : String) (v : A)
+    (h : (st.obj j).buf ≠ (st.obj o).buf) : contents (setItem st o key v) j = contents st j :=
+  setItem_contents_other st o key v h
+
+theorem view_holds_rows (st : Store A) (o : Nat) (key : String) :
+    contents (view st o key).1 (view st o key).2 = Arr.get key (contents st o) :=
+  view_contents_new o key
+
+/-- the history of the seeded change r3-3 on symbolic values: `orbit = PosVel(L0, 'trs'); k = orbit.kepler;
+orbit[:] = L1; k.trs` is `kepler2trs(trs2kepler(L0))` (not `L1`), and `orbit.kepler` is `trs2kepler` of
+`orbit` after the write -/
+example :
+    let st := run (empty (Term.lit 0)) [Op.new .trs (.lit 0), .toSys 0 .kepler, .set 0 "a" (.lit 1)]
+    st.n = 2 ∧ contents (toSystem st 1 .trs).1 (toSystem st 1 .trs).2 = Term.conv .trs (Term.conv .kepler (.lit 0)) ∧
+      contents (toSystem st 0 .kepler).1 (toSystem st 0 .kepler).2 = Term.conv .kepler (Term.put "a" (.lit 1) (.lit 0)) := by
+  refine ⟨rfl, rfl, rfl⟩
+
+end Cache
+
 end Midgard.Props.C07
 
 #print axioms Midgard.Props.C07.radius
@@ -414,3 +544,13 @@ end Midgard.Props.C07
 #print axioms Midgard.Props.C07.source_kepler2trs
 #print axioms Midgard.Props.C07.source_trs2kepler
 #print axioms Midgard.Props.C07.source_anomalies
+#print axioms Midgard.Props.C07.principal_ranges
+#print axioms Midgard.Props.C07.bound_orbit
+#print axioms Midgard.Props.C07.true_anomaly_range_and_sign
+#print axioms Midgard.Props.C07.cache_coherent
+#print axioms Midgard.Props.C07.kept_conversion_unchanged
+#print axioms Midgard.Props.C07.write_is_local
+#print axioms Midgard.Props.C07.view_holds_rows
+#print axioms Midgard.Props.C07.kepler2trs_trs2kepler
+#print axioms Midgard.Props.C07.noncircular_iff
+#print axioms Midgard.Props.C07.kepler2trs_trs2kepler_of_dot_ne
